@@ -59,6 +59,8 @@ type recvIn struct {
 	LeakCheck   bool    `json:"leakcheck,omitempty"`
 	WS          bool    `json:"ws,omitempty"`            // over the real WebsocketTransport (one frame per element)
 	PeerCut     bool    `json:"peercut,omitempty"`       // WS only: the TCP connection under the websocket is reset by the peer; the loss must be detected through the keepalive and reported
+	Frag        bool    `json:"frag,omitempty"`          // WS only: every element is sent as ONE websocket message made of two frames (RFC 6455 5.4: any sender or intermediary may fragment)
+	PeerClose   bool    `json:"peerclose,omitempty"`     // WS only: the server closes the websocket after the last element (no keepalive runs): the read path itself must report the loss
 	Logged      bool    `json:"logged,omitempty"`        // real XMPPTransport read path with the traffic logger, over a scripted net.Conn
 	ErrWithData bool    `json:"err_with_data,omitempty"` // the last bytes and the read error arrive in the same Read call
 }
@@ -671,6 +673,7 @@ func runRecvWS(in recvIn) Sx {
 	var smu sync.Mutex
 	var answers []Sx
 	sendDone := make(chan struct{})
+	peerClose := make(chan struct{})
 	srv := &http.Server{Handler: http.HandlerFunc(func(w http.ResponseWriter, r *http.Request) {
 		c, err := websocket.Accept(w, r, &websocket.AcceptOptions{Subprotocols: []string{"xmpp"}})
 		if err != nil {
@@ -699,12 +702,29 @@ func runRecvWS(in recvIn) Sx {
 			}
 		}()
 		for _, it := range in.Items {
+			if in.Frag && len(it.XML) >= 2 {
+				w, err := c.Writer(ctx, websocket.MessageText)
+				if err != nil {
+					break
+				}
+				h := len(it.XML) / 2
+				w.Write([]byte(it.XML[:h])) // first frame, FIN=0
+				w.Write([]byte(it.XML[h:])) // continuation frame
+				if w.Close() != nil {
+					break
+				}
+				continue
+			}
 			if c.Write(ctx, websocket.MessageText, []byte(it.XML)) != nil {
 				break
 			}
 		}
 		close(sendDone)
-		<-ctx.Done()
+		select {
+		case <-peerClose:
+			c.Close(websocket.StatusNormalClosure, "bye")
+		case <-ctx.Done():
+		}
 	})}
 	go srv.Serve(ln)
 	defer srv.Close()
@@ -808,6 +828,9 @@ func runRecvWS(in recvIn) Sx {
 	closed := make(chan struct{})
 	if in.PeerCut {
 		ln.cut(false) // TCP reset under the websocket: only a failing keepalive can notice
+		close(closed)
+	} else if in.PeerClose {
+		close(peerClose) // the server closes the websocket: the client's read path has to notice and report
 		close(closed)
 	} else {
 		go func() { tr.Close(); close(closed) }()
